@@ -315,7 +315,9 @@ func (s *Solver) checkCmd(pcs []*Term, extra *Term) string {
 			return "(check-sat)"
 		}
 	}
-	return "(check-sat-using (then simplify bit-blast sat))"
+	// (set-option :timeout) does not bound check-sat-using: the tactic carries
+	// its own limit (an exceeded limit answers "unknown")
+	return fmt.Sprintf("(check-sat-using (try-for (then simplify bit-blast sat) %d))", s.timeout)
 }
 
 func (s *Solver) Done() {
